@@ -1,7 +1,7 @@
 #!/usr/bin/env python3
 """Prints the markdown tables of seeded changes (DESIGN.md §7.5) from seeded/*/meta.json.
 
-  tools/seed_table.py [r1|r2|r3|r4|r5|r6|r7|r8|r9|r10]      (default: both rounds, one table each, plus counts)
+  tools/seed_table.py [r1|...|r11]      (default: both rounds, one table each, plus counts)
 """
 import glob
 import json
@@ -15,7 +15,7 @@ def rows(rnd):
     out = []
     for mp in sorted(glob.glob(os.path.join(ROOT, "seeded", "*", "meta.json"))):
         name = os.path.basename(os.path.dirname(mp))
-        this = "r10" if "-r10" in name else ("r9" if "-r9" in name else ("r8" if "-r8" in name else ("r7" if "-r7" in name else ("r6" if "-r6" in name else ("r5" if "-r5" in name else ("r4" if "-r4" in name else ("r3" if "-r3" in name else ("r2" if "-r2" in name else "r1"))))))))
+        this = "r11" if "-r11" in name else ("r10" if "-r10" in name else ("r9" if "-r9" in name else ("r8" if "-r8" in name else ("r7" if "-r7" in name else ("r6" if "-r6" in name else ("r5" if "-r5" in name else ("r4" if "-r4" in name else ("r3" if "-r3" in name else ("r2" if "-r2" in name else "r1")))))))))
         if this != rnd:
             continue
         m = json.load(open(mp))
@@ -43,7 +43,7 @@ def table(rnd):
 
 
 if __name__ == "__main__":
-    which = sys.argv[1:] or ["r1", "r2", "r3", "r4", "r5", "r6", "r7", "r8", "r9", "r10"]
+    which = sys.argv[1:] or ["r1", "r2", "r3", "r4", "r5", "r6", "r7", "r8", "r9", "r10", "r11"]
     for w in which:
         table(w)
         print()
